@@ -3,10 +3,11 @@
 #   exit 0 = every returned segment is a forest in C04's sense (forest_check.h) for the fonts of the chosen facets
 #   23: pass 2 rule "b": DELETE RET_ZERO (the action ends on the slot it deleted)          -- repaired by 93f0ef73
 #   25: pass 2 rule "a": NEXT DELETE INSERT PUSH 2 POP_RET (deletes the slot behind the match, then moves off its cell) -- repaired by 8095bccf
+#   26: pass 1 "ca": a attaches to c; pass 2 rule "b": DELETE INSERT NEXT DELETE PUSH 2 POP_RET (deletes the slot IN FRONT of the match) -- repaired by 91... (see known_findings.json)
 #   24: rule "ab": NEXT INSERT attach.to=a DELETE NEXT NEXT RET_ZERO (a slot inserted, attached and deleted by one action) -- known finding F24
 set -e
 SRC=${1:-/repo}
-WHICH=${2:-"23 25"}
+WHICH=${2:-"23 25 26"}
 H=$(cd "$(dirname "$0")" && pwd)
 B=$(mktemp -d /tmp/f23-XXXXXX)
 cmake -G Ninja -S "$SRC" -B "$B/build" -DCMAKE_BUILD_TYPE=RelWithDebInfo >/dev/null
@@ -15,7 +16,7 @@ g++ -O1 -g -I"$SRC/include" "$H/shape.cpp" -o "$B/shape" -L"$B/build/src" -lgrap
 rc=0
 for n in $WHICH; do
   GR_REPO="$SRC" python3 "$H/font$n.py" "$B/f$n.ttf"
-  for t in ab xabx abab; do
+  for t in ab xabx abab cab xcabx; do
     "$B/shape" "$B/f$n.ttf" "$t" || rc=1
   done
 done
